@@ -517,7 +517,19 @@ def r1t(orig, rule):
     return 'let __n = std::cmp::min(%s, %s.len()); for %s in 0..__n { let %s = %s[%s];' % (n, e, i, x, e, i)
 
 
+def r33(orig, rule):
+    # (A..B).map(|X| E).collect()   (tail expression, element type T from the rule argument)
+    #   ->  { let mut __v: Vec<T> = Vec::new(); for X in A..B { __v.push(E); } __v }
+    #   (collect of a mapped range yields E for X = A, A+1, ... below B in this order)
+    s = norm(orig)
+    ty = rule.split(None, 1)[1]
+    m = _m(r'\( (.+?) \.\. (.+?) \) \. map \( \| (%s) \| (.+) \) \. collect \( \)' % ID, s)
+    a, b, x, e = m.groups()
+    return '{ let mut __v: Vec<%s> = Vec::new(); for %s in %s..%s { __v.push(%s); } __v }' % (ty, x, a, b, e)
+
+
 GENERATORS = {
+    'R33': r33,
     'R1b': r1b, 'R1t': r1t, 'R22': r22, 'R23': r23, 'R24': r24, 'R18m': r18m, 'RRET': rret, 'R26': r26, 'R18a': r18a, 'RTY': rty, 'R32': r32, 'R31': r31, 'RVEC': rvec, 'R29': r29, 'R30': r30, 'R30t': r30t, 'R28': r28, 'RPANIC': rpanic,
     'RBW': rbw,
     'R4m': r4m,
